@@ -21,7 +21,7 @@ def root_local(P, op, b, i, depth=0):
     l = op['pl']['l']
     for _ in range(200):
         rs = P.reaching(l, b, i)
-        if len(rs) != 1 or rs[0] is None:
+        if len(rs) != 1 or rs[0] is None or rs[0] == 'IN':
             return l
         db, di = rs[0]
         if di == -1:
